@@ -80,6 +80,12 @@ claimed.update({
    note="Races on state outside the lockset specification (vinst.DefaultGuards) and weak-memory effects are not decided by this check; the Go race detector cannot be combined with the cooperative scheduler (hand-offs are happens-before edges).",
    technique="stateless model checking: preemption-bounded schedule enumeration of the real code with lockset assertions and a porcupine linearizability check per execution"),
 })
+claimed.update({
+ "C19": dict(engine=E2, design="5 (C19)",
+   text="BFS (depth 3 quick / 5 thorough, ~27k states) over histories on two recursive roots r and r2 (r2 shares r's string prefix) whose trees contain prefix-sharing siblings dir1/dir10 and sub/sub2, each with children: mkdir one level at a time, rename of inner directories within the tree (also into a sibling), file operations in every directory, re-mkdir of a moved-away name, Remove/Add of either root, quiescence after every step. Oracle per state: every event carries the true current path of its directory (taken from an inode walk of the real tree, wd->inode from the syscall seam) with the documented Op and old name; the kernel's mark list (fdinfo) equals exactly the set of directories of the active trees (a new directory is covered once its Create was delivered, a removed root leaves nothing behind, the other root keeps everything); WatchList stays inside the active trees.",
+   note="Recursion is switched on through the verif hook (enableRecurse). mkdir -p bursts, directories moved across the tree boundary and Remove of an inner directory of a recursive watch are not judged (the property excludes or does not mention them).",
+   technique="explicit-state model checking: BFS on the real code with kernel-side coverage ground truth"),
+})
 NA_REASON = "check not built yet (work in progress; DESIGN.md section 5 gives the planned decision procedure)"
 
 def main():
@@ -98,7 +104,7 @@ def main():
       "engines": [
         {"name": "E4", "path": "cmd/vxgen cmd/vpure", "serves_properties": ["C15", "C16", "C20"],
          "kind_free_text": "extraction of pure functions from the working tree + exhaustive enumeration of their finite input domains against independent references"},
-        {"name": "E2", "path": "harness/bfs.go harness/seq.go harness/ideal.go harness/fam_seq.go", "serves_properties": ["C04", "C09", "C12"],
+        {"name": "E2", "path": "harness/bfs.go harness/seq.go harness/ideal.go harness/fam_seq.go", "serves_properties": ["C04", "C09", "C12", "C19"],
          "kind_free_text": "explicit-state BFS over operation sequences: successors by replay on fresh kernel objects, canonical-state hashing, reference model fed by seam syscalls and raw kernel reads"},
         {"name": "E2-events", "path": "harness/checks_events.go harness/seq.go harness/ideal.go", "serves_properties": ["C01", "C02", "C03", "C08", "C10", "C11", "C14"],
          "kind_free_text": "BFS over histories x batchings, exhaustive name-shape / buffer-boundary / injected-record enumeration, differential runs over configurations; reference model over the raw kernel stream"},
